@@ -85,18 +85,58 @@ def _dotted(node) -> Optional[str]:
     return None
 
 
+_LEAN_TY = {"Int": "Int", "Bool": "Bool", "OptInt": "Option Int", "Len": "Int"}
+_F53 = 9007199254740992  # 2^53: integers below are exact IEEE doubles
+_MAX_UNROLL = 64
+
+
+def _is_none(node) -> bool:
+    return isinstance(node, ast.Constant) and node.value is None
+
+
 class _Tr:
-    def __init__(self, env: Env, params: dict):
+    def __init__(self, env: Env, params: dict, lean_name: str = "f"):
         self.env = env
         self.vars = dict(params)  # python name -> type
         self.binds = []  # pending monadic binds for the expression being built
         self.tmp = 0
+        # --- phase-2 state
+        self.lean_name = lean_name
+        self.aux = []  # texts of auxiliary (loop) definitions, emitted before the function
+        self.nloops = 0
+        self.uses_fuel = False
+        self.narrowed = set()  # Optional names known to be not-None (and truthy tests passed) at this point
+        self.fall = None  # continuation at the end of a loop body (None = fall off the function end)
+        self.brk = None  # continuation of `break`
+        self.in_loop = False
 
     # ---------------- expressions -----------------
     def const(self, name: str):
         for key in (name, name.split(".", 1)[-1], name.rsplit(".", 1)[-1]):
             if key in self.env.consts:
                 return self.env.consts[key]
+        return None
+
+    def as_int(self, term, ty, node=None):
+        """An operand that must be an integer; an Optional is allowed when narrowed, else guarded (TypeError)."""
+        if ty == "Int":
+            return term
+        if ty == "OptInt":
+            if not (isinstance(node, ast.Name) and node.id in self.narrowed):
+                self.binds.append(("guardNone", term))
+            return f"(Option.getD {term} 0)"
+        raise Untranslatable("non-int operand")
+
+    def const_int(self, node):
+        """Statically known integer value of an expression node, or None."""
+        if isinstance(node, ast.Constant) and isinstance(node.value, int) and not isinstance(node.value, bool):
+            return node.value
+        if isinstance(node, ast.UnaryOp) and isinstance(node.op, ast.USub):
+            v = self.const_int(node.operand)
+            return None if v is None else -v
+        d = _dotted(node)
+        if d is not None and d not in self.vars:
+            return self.const(d)
         return None
 
     def expr(self, e) -> tuple:
@@ -106,12 +146,16 @@ class _Tr:
                 return ("true" if e.value else "false", "Bool")
             if isinstance(e.value, int):
                 return (f"({e.value} : Int)", "Int")
+            if e.value is None:
+                return ("(none : Option Int)", "OptInt")
             raise Untranslatable(f"constant {e.value!r}")
         if isinstance(e, (ast.Name, ast.Attribute)):
             d = _dotted(e)
             if d is None:
                 raise Untranslatable("attribute base")
             if d in self.vars:
+                if self.vars[d] == "Len":
+                    raise Untranslatable(f"bytes-like parameter {d} used other than through len()")
                 return (lname(d), self.vars[d])
             c = self.const(d)
             if c is not None:
@@ -120,6 +164,9 @@ class _Tr:
         if isinstance(e, ast.BinOp):
             a, ta = self.expr(e.left)
             b, tb = self.expr(e.right)
+            if ta == "OptInt" or tb == "OptInt":
+                a, ta = self.as_int(a, ta, e.left), "Int"
+                b, tb = self.as_int(b, tb, e.right), "Int"
             if ta != "Int" or tb != "Int":
                 raise Untranslatable("non-int binop")
             op = type(e.op)
@@ -147,19 +194,34 @@ class _Tr:
                 return (f"(pyXor {a} {b})", "Int")
             raise Untranslatable(f"binop {op.__name__}")
         if isinstance(e, ast.UnaryOp):
+            if isinstance(e.op, ast.Not):
+                return (f"(!{self.test(e.operand)})", "Bool")
             a, ta = self.expr(e.operand)
+            if ta == "OptInt":
+                a, ta = self.as_int(a, ta, e.operand), "Int"
             if isinstance(e.op, ast.USub) and ta == "Int":
                 return (f"(- {a})", "Int")
             if isinstance(e.op, ast.UAdd) and ta == "Int":
                 return (a, "Int")
-            if isinstance(e.op, ast.Not):
-                return (f"(!{self.as_bool(a, ta)})", "Bool")
             raise Untranslatable("unary op")
         if isinstance(e, ast.Compare):
+            # `x is None` / `x is not None` (also ==/!= None) on an Optional
+            if len(e.ops) == 1 and _is_none(e.comparators[0]) and isinstance(e.ops[0], (ast.Is, ast.IsNot, ast.Eq, ast.NotEq)):
+                a, ta = self.expr(e.left)
+                neg = isinstance(e.ops[0], (ast.IsNot, ast.NotEq))
+                if ta == "OptInt":
+                    return (f"(Option.isSome {a})" if neg else f"(Option.isNone {a})", "Bool")
+                return ("true" if neg else "false", "Bool")
             parts = []
             left, tl = self.expr(e.left)
+            lnode = e.left
             for op, rhs in zip(e.ops, e.comparators):
                 r, tr = self.expr(rhs)
+                if tl == "OptInt" or tr == "OptInt":
+                    if tl == "OptInt":
+                        left, tl = self.as_int(left, tl, lnode), "Int"
+                    if tr == "OptInt":
+                        r, tr = self.as_int(r, tr, rhs), "Int"
                 if tl != tr:
                     raise Untranslatable("mixed compare")
                 sym = {ast.Lt: "<", ast.LtE: "≤", ast.Gt: ">", ast.GtE: "≥", ast.Eq: "==", ast.NotEq: "!="}.get(type(op))
@@ -169,19 +231,40 @@ class _Tr:
                     parts.append(f"({left} {sym} {r})")
                 else:
                     parts.append(f"(decide ({left} {sym} {r}))")
-                left, tl = r, tr
+                left, tl, lnode = r, tr, rhs
             return ("(" + " && ".join(parts) + ")", "Bool")
         if isinstance(e, ast.BoolOp):
             n0 = len(self.binds)
-            vals = [self.as_bool(*self.expr(v)) for v in e.values]
+            saved_narrow = set(self.narrowed)
+            pairs = []
+            for v in e.values:
+                pairs.append(self.expr(v))
+                # short-circuit narrowing: later operands are only evaluated when the earlier ones are truthy (and) / falsy (or)
+                self.narrowed |= (_pos_names(v) if isinstance(e.op, ast.And) else _neg_names(v))
+            self.narrowed = saved_narrow
             if len(self.binds) != n0:
+                self.binds = self.binds[:n0]
                 raise Untranslatable("call or division inside and/or (short-circuit)")
             # NOTE: Python short-circuits; sub-expressions here are total (guards are hoisted), so
-            # evaluation order does not matter except for hoisted guards, which we refuse below.
+            # evaluation order does not matter except for hoisted guards, which we refuse above.
+            tys = [t for _, t in pairs]
+            if isinstance(e.op, ast.Or) and "OptInt" in tys and all(t in ("Int", "OptInt") for t in tys):
+                # Python value semantics: the first truthy operand, else the last one
+                term, ty = pairs[-1]
+                for a, ta in reversed(pairs[:-1]):
+                    if ta == ty:
+                        conv = a
+                    elif ty == "Int":
+                        conv = f"(Option.getD {a} 0)"
+                    else:
+                        conv = f"(some {a})"
+                    term = f"(if {self.as_bool(a, ta)} then {conv} else {term})"
+                return (term, ty)
+            vals = [self.as_bool(a, ta) for a, ta in pairs]
             sym = " && " if isinstance(e.op, ast.And) else " || "
             return ("(" + sym.join(vals) + ")", "Bool")
         if isinstance(e, ast.IfExp):
-            c = self.as_bool(*self.expr(e.test))
+            c = self.test(e.test)
             a, ta = self.expr(e.body)
             b, tb = self.expr(e.orelse)
             if ta != tb:
@@ -198,10 +281,28 @@ class _Tr:
                 a, ta = self.expr(e.args[0])
                 if ta == "Int":
                     return (f"(Int.ofNat (Int.natAbs {a}))", "Int")
+            if d in ("ceil", "math.ceil", "floor", "math.floor") and len(e.args) == 1 and not e.keywords \
+                    and isinstance(e.args[0], ast.BinOp) and isinstance(e.args[0].op, ast.Div):
+                a, ta = self.expr(e.args[0].left)
+                b, tb = self.expr(e.args[0].right)
+                a, b = self.as_int(a, ta, e.args[0].left), self.as_int(b, tb, e.args[0].right)
+                cb = self.const_int(e.args[0].right)
+                if cb is None or cb == 0:
+                    self.binds.append(("guard0", b))
+                # float true division: exact only while both operands are exact doubles (see module docstring)
+                self.binds.append(("guardF", a, None if (cb is not None and abs(cb) < _F53) else b))
+                if d.endswith("ceil"):
+                    return (f"(- (pyFloorDiv (- {a}) {b}))", "Int")
+                return (f"(pyFloorDiv {a} {b})", "Int")
+            if d == "len" and len(e.args) == 1 and not e.keywords and isinstance(e.args[0], ast.Name) \
+                    and self.vars.get(e.args[0].id) == "Len":
+                return (lname(e.args[0].id) + "_len", "Int")
             if d == "int" and len(e.args) == 1 and not e.keywords:
                 a, ta = self.expr(e.args[0])
                 if ta == "Int":
                     return (a, "Int")
+                if ta == "OptInt":
+                    raise Untranslatable("int() of an Optional")
                 return (f"(if {a} then (1:Int) else 0)", "Int")
             if d == "bool" and len(e.args) == 1:
                 return (self.as_bool(*self.expr(e.args[0])), "Bool")
@@ -219,13 +320,25 @@ class _Tr:
             for a_node, (pn, pt) in zip(e.args, sig.params):
                 a, ta = self.expr(a_node)
                 if ta != pt:
-                    raise Untranslatable("call arg type")
+                    if pt == "OptInt" and ta == "Int":
+                        a = f"(some {a})"
+                    elif pt == "Int" and ta == "OptInt":
+                        a = self.as_int(a, ta, a_node)
+                    else:
+                        raise Untranslatable("call arg type")
                 args.append(a)
+            if getattr(sig, "fuel", False):
+                self.uses_fuel = True
+                args.insert(0, "fuel")
             self.tmp += 1
             v = f"r{self.tmp}"
             self.binds.append(("call", v, f"{sig.lean_name} " + " ".join(args)))
             return (v, sig.ret)
         raise Untranslatable(type(e).__name__)
+
+    def test(self, e) -> str:
+        """A condition (boolean context)."""
+        return self.as_bool(*self.expr(e))
 
     def _is_nonzero_const(self, node) -> bool:
         d = _dotted(node)
@@ -236,14 +349,21 @@ class _Tr:
 
     @staticmethod
     def as_bool(term, ty):
-        return term if ty == "Bool" else f"({term} != 0)"
+        if ty == "Bool":
+            return term
+        if ty == "OptInt":
+            return f"((Option.getD {term} 0) != 0)"
+        return f"({term} != 0)"
 
     def with_binds(self, build):
         """Evaluate `build()` (which calls self.expr) and wrap its result with the hoisted binds."""
         saved = self.binds
         self.binds = []
-        inner = build()
-        binds, self.binds = self.binds, saved
+        try:
+            inner = build()
+            binds = self.binds
+        finally:
+            self.binds = saved
         return binds, inner
 
     @staticmethod
@@ -251,6 +371,11 @@ class _Tr:
         for b in reversed(binds):
             if b[0] == "guard0":
                 body = f"(if {b[1]} == 0 then .error .other else {body})"
+            elif b[0] == "guardNone":
+                body = f"(if (Option.isNone {b[1]}) then .error .other else {body})"
+            elif b[0] == "guardF":
+                conds = [f"decide ((Int.natAbs {x}) < {_F53})" for x in b[1:] if x is not None]
+                body = f"(if ({' && '.join(conds)}) then {body} else .error .other)"
             else:
                 body = f"(match {b[2]} with | .error e => .error e | .ok {b[1]} => {body})"
         return body
@@ -258,14 +383,22 @@ class _Tr:
     # ---------------- statements -----------------
     def block(self, stmts, ret_ty) -> str:
         if not stmts:
+            if self.fall is not None:
+                return self.fall()
             raise Untranslatable("fall off end (implicit None)")
         s, rest = stmts[0], stmts[1:]
         if isinstance(s, ast.Expr) and isinstance(s.value, ast.Constant) and isinstance(s.value.value, str):
             return self.block(rest, ret_ty)
+        if isinstance(s, ast.Expr) and isinstance(s.value, ast.Call):
+            d = _dotted(s.value.func) or ""
+            if d.split(".")[0] in ("logger", "logging", "warnings") or d == "print":
+                return self.block(rest, ret_ty)  # no effect on the result
         if isinstance(s, ast.Return):
+            if self.in_loop:
+                raise Untranslatable("return inside a loop")
             if s.value is None:
                 raise Untranslatable("bare return")
-            binds, (t, ty) = self.with_binds(lambda: self.expr(s.value))
+            binds, (t, ty) = self.with_binds(lambda: self._ret_value(s.value, ret_ty))
             if ty != ret_ty:
                 if ret_ty == "Bool":
                     t = self.as_bool(t, ty)
@@ -283,13 +416,14 @@ class _Tr:
             kind = ".spsdk" if name.rsplit(".", 1)[-1].startswith("SPSDK") else ".other"
             return f"(.error {kind})"
         if isinstance(s, ast.If):
-            binds, c = self.with_binds(lambda: self.as_bool(*self.expr(s.test)))
-            saved = dict(self.vars)
+            binds, c = self.with_binds(lambda: self.test(s.test))
+            saved, saved_n = dict(self.vars), set(self.narrowed)
+            self.narrowed = saved_n | _pos_names(s.test)
             then_t = self.block(list(s.body) + ([] if _terminates(s.body) else rest), ret_ty)
-            self.vars = dict(saved)
+            self.vars, self.narrowed = dict(saved), saved_n | _neg_names(s.test)
             else_body = list(s.orelse)
             else_t = self.block(else_body + ([] if (else_body and _terminates(else_body)) else rest), ret_ty)
-            self.vars = saved
+            self.vars, self.narrowed = saved, saved_n
             return self.wrap(binds, f"(if {c} then {then_t} else {else_t})")
         if isinstance(s, (ast.Assign, ast.AugAssign, ast.AnnAssign)):
             if isinstance(s, ast.Assign):
@@ -305,13 +439,158 @@ class _Tr:
                     raise Untranslatable("augassign target")
                 tgt = s.target.id
                 val = ast.BinOp(left=ast.Name(id=tgt, ctx=ast.Load()), op=s.op, right=s.value)
+            if tgt == "fuel":
+                raise Untranslatable("local named fuel")
             binds, (t, ty) = self.with_binds(lambda: self.expr(val))
             self.vars[tgt] = ty
+            self.narrowed.discard(tgt)
             body = self.block(rest, ret_ty)
-            return self.wrap(binds, f"(let {lname(tgt)} : {ty} := {t}; {body})")
+            return self.wrap(binds, f"(let {lname(tgt)} : {_LEAN_TY.get(ty, ty)} := {t}; {body})")
         if isinstance(s, ast.Pass):
             return self.block(rest, ret_ty)
+        if isinstance(s, ast.Assert):
+            t = s.test
+            if isinstance(t, ast.Call) and _dotted(t.func) == "isinstance":
+                return self.block(rest, ret_ty)  # static typing fact
+            binds, c = self.with_binds(lambda: self.test(t))
+            saved_n = set(self.narrowed)
+            self.narrowed = saved_n | _pos_names(t)
+            body = self.block(rest, ret_ty)
+            self.narrowed = saved_n
+            return self.wrap(binds, f"(if {c} then {body} else .error .other)")
+        if isinstance(s, ast.For):
+            return self.block(self._unroll(s) + rest, ret_ty)
+        if isinstance(s, ast.While):
+            return self._while(s, rest, ret_ty)
+        if isinstance(s, ast.Break) and self.brk is not None:
+            return self.brk()
+        if isinstance(s, ast.Continue) and self.brk is not None and self.fall is not None:
+            return self.fall()
         raise Untranslatable(f"statement {type(s).__name__}")
+
+    def _ret_value(self, node, ret_ty):
+        t, ty = self.expr(node)
+        if ty == "OptInt" and ret_ty == "Int":
+            return (self.as_int(t, ty, node), "Int")
+        return (t, ty)
+
+    # ---------------- loops -----------------
+    def _unroll(self, s: ast.For) -> list:
+        """`for x in range(<consts>)` / `for x in (<consts>)` -> `x = c0; body; x = c1; body; …`."""
+        if s.orelse or not isinstance(s.target, ast.Name):
+            raise Untranslatable("for form")
+        for n in ast.walk(ast.Module(body=list(s.body), type_ignores=[])):
+            if isinstance(n, (ast.Break, ast.Continue)):
+                raise Untranslatable("break/continue inside a for loop")
+        it = s.iter
+        values = None
+        if isinstance(it, ast.Call) and _dotted(it.func) == "range" and not it.keywords and 1 <= len(it.args) <= 3:
+            cs = [self.const_int(a) for a in it.args]
+            if all(c is not None for c in cs) and (len(cs) < 3 or cs[2] != 0):
+                values = list(range(*cs)) if len(range(*cs)) <= _MAX_UNROLL else None
+        elif isinstance(it, (ast.Tuple, ast.List)):
+            cs = [self.const_int(a) for a in it.elts]
+            if all(c is not None for c in cs) and len(cs) <= _MAX_UNROLL:
+                values = cs
+        if values is None:
+            raise Untranslatable("for loop over a non-constant (or too long) range")
+        out = []
+        if len(values) * max(1, len(s.body)) > 4 * _MAX_UNROLL:
+            raise Untranslatable("unrolled loop too large")
+        for v in values:
+            out.append(ast.Assign(targets=[ast.Name(id=s.target.id, ctx=ast.Store())], value=ast.Constant(value=v)))
+            out.extend(s.body)
+        return out
+
+    def _while(self, s: ast.While, rest, ret_ty) -> str:
+        if s.orelse:
+            raise Untranslatable("while … else")
+        if "fuel" in self.vars:
+            raise Untranslatable("variable named fuel")
+        mod = ast.Module(body=list(s.body), type_ignores=[])
+        assigned = []
+        for n in ast.walk(mod):
+            if isinstance(n, ast.Name) and isinstance(n.ctx, ast.Store) and n.id not in assigned:
+                assigned.append(n.id)
+        used = {n.id for n in ast.walk(mod) if isinstance(n, ast.Name)} | {n.id for n in ast.walk(s.test) if isinstance(n, ast.Name)}
+        state = [v for v in self.vars if v in assigned]
+        consts = [v for v in self.vars if v in used and v not in assigned]
+        if not state:
+            raise Untranslatable("while loop without integer state")
+        for v in state + consts:
+            if self.vars[v] not in ("Int", "Bool", "OptInt"):
+                raise Untranslatable(f"loop variable {v} type")
+        self.nloops += 1
+        self.uses_fuel = True
+        aux = f"{self.lean_name}_while{self.nloops}"
+        st_types = {v: self.vars[v] for v in state}
+        call = lambda: self._loop_call(aux, consts, state, st_types)  # noqa: E731
+        tup = lname(state[0]) if len(state) == 1 else "(" + ", ".join(lname(v) for v in state) + ")"
+        done = lambda: self._loop_exit(state, st_types, tup)  # noqa: E731
+        # --- the auxiliary function
+        saved = (dict(self.vars), set(self.narrowed), self.fall, self.brk, self.in_loop)
+        self.vars = {v: saved[0][v] for v in consts + state}
+        self.narrowed = saved[1] - set(state)
+        self.fall, self.brk, self.in_loop = call, done, True
+        try:
+            binds, c = self.with_binds(lambda: self.test(s.test))
+            n_in = set(self.narrowed)
+            self.narrowed = n_in | (_pos_names(s.test) - set(state))
+            body = self.block(list(s.body), ret_ty)
+            self.narrowed = n_in
+            step = self.wrap(binds, f"(if {c} then {body} else {done()})")
+        finally:
+            self.vars, self.narrowed, self.fall, self.brk, self.in_loop = saved
+        cargs = "".join(f" ({lname(v)} : {_LEAN_TY[self.vars[v]]})" for v in consts)
+        sty = " → ".join(_LEAN_TY[st_types[v]] for v in state)
+        rty = _LEAN_TY[st_types[state[0]]] if len(state) == 1 else "(" + " × ".join(_LEAN_TY[st_types[v]] for v in state) + ")"
+        self.aux.append(
+            f"def {aux}{cargs} : Nat → {sty} → PyRes {rty}\n"
+            f"  | 0, {', '.join('_' for _ in state)} => .error .other\n"
+            f"  | fuel + 1, {', '.join(lname(v) for v in state)} =>\n    {step}\n")
+        # --- the call site
+        self.narrowed -= set(state)
+        after = self.block(rest, ret_ty)
+        cc = " ".join(lname(v) for v in consts)
+        return (f"(match {aux}{' ' + cc if cc else ''} fuel {' '.join(lname(v) for v in state)} with "
+                f"| .error e => .error e | .ok {tup} => {after})")
+
+    def _loop_call(self, aux, consts, state, st_types) -> str:
+        for v in state:
+            if self.vars.get(v) != st_types[v]:
+                raise Untranslatable(f"loop variable {v} changes type")
+        cc = " ".join(lname(v) for v in consts)
+        return f"({aux}{' ' + cc if cc else ''} fuel {' '.join(lname(v) for v in state)})"
+
+    def _loop_exit(self, state, st_types, tup) -> str:
+        for v in state:
+            if self.vars.get(v) != st_types[v]:
+                raise Untranslatable(f"loop variable {v} changes type")
+        return f"(.ok {tup})"
+
+
+def _pos_names(test) -> set:
+    """Optional names known to be not-None (truthy / `is not None`) when `test` is true."""
+    if isinstance(test, ast.Name):
+        return {test.id}
+    if isinstance(test, ast.Compare) and len(test.ops) == 1 and isinstance(test.left, ast.Name) and _is_none(test.comparators[0]):
+        return {test.left.id} if isinstance(test.ops[0], (ast.IsNot, ast.NotEq)) else set()
+    if isinstance(test, ast.BoolOp) and isinstance(test.op, ast.And):
+        return set().union(*[_pos_names(v) for v in test.values])
+    if isinstance(test, ast.UnaryOp) and isinstance(test.op, ast.Not):
+        return _neg_names(test.operand)
+    return set()
+
+
+def _neg_names(test) -> set:
+    """Optional names known to be not-None when `test` is false."""
+    if isinstance(test, ast.Compare) and len(test.ops) == 1 and isinstance(test.left, ast.Name) and _is_none(test.comparators[0]):
+        return {test.left.id} if isinstance(test.ops[0], (ast.Is, ast.Eq)) else set()
+    if isinstance(test, ast.BoolOp) and isinstance(test.op, ast.Or):
+        return set().union(*[_neg_names(v) for v in test.values])
+    if isinstance(test, ast.UnaryOp) and isinstance(test.op, ast.Not):
+        return _pos_names(test.operand)
+    return set()
 
 
 def _terminates(stmts) -> bool:
@@ -325,6 +604,22 @@ def _terminates(stmts) -> bool:
     return False
 
 
+def _param_type(ann) -> Optional[str]:
+    if ann is None or (isinstance(ann, ast.Name) and ann.id == "int"):
+        return "Int"
+    if isinstance(ann, ast.Name) and ann.id == "bool":
+        return "Bool"
+    # Optional[int] / int | None
+    if isinstance(ann, ast.Subscript) and _dotted(ann.value) in ("Optional", "typing.Optional") \
+            and isinstance(ann.slice, ast.Name) and ann.slice.id == "int":
+        return "OptInt"
+    if isinstance(ann, ast.BinOp) and isinstance(ann.op, ast.BitOr):
+        l, r = ann.left, ann.right
+        if isinstance(l, ast.Name) and l.id == "int" and _is_none(r) or isinstance(r, ast.Name) and r.id == "int" and _is_none(l):
+            return "OptInt"
+    return None
+
+
 def translate_function(fn: ast.FunctionDef, lean_name: str, env: Env, param_types: Optional[dict] = None,
                        ret: Optional[str] = None, drop_params=("self", "cls")) -> tuple:
     """Return (lean_def_text, FunSig)."""
@@ -332,16 +627,12 @@ def translate_function(fn: ast.FunctionDef, lean_name: str, env: Env, param_type
     for a in fn.args.args:
         if a.arg in drop_params:
             continue
-        ty = "Int"
-        ann = a.annotation
         if param_types and a.arg in param_types:
             ty = param_types[a.arg]
-        elif isinstance(ann, ast.Name) and ann.id == "bool":
-            ty = "Bool"
-        elif isinstance(ann, ast.Name) and ann.id == "int" or ann is None:
-            ty = "Int"
         else:
-            raise Untranslatable(f"parameter {a.arg} annotation")
+            ty = _param_type(a.annotation)
+            if ty is None:
+                raise Untranslatable(f"parameter {a.arg} annotation")
         params.append((a.arg, ty))
     if fn.args.vararg or fn.args.kwarg or fn.args.kwonlyargs:
         raise Untranslatable("varargs")
@@ -353,11 +644,17 @@ def translate_function(fn: ast.FunctionDef, lean_name: str, env: Env, param_type
             ret = "Int"
         else:
             raise Untranslatable("return annotation")
-    tr = _Tr(env, dict(params))
+    tr = _Tr(env, dict(params), lean_name)
     body = tr.block(list(fn.body), ret)
-    args = " ".join(f"({lname(n)} : {t})" for n, t in params)
-    text = f"def {lean_name} {args} : PyRes {ret} :=\n  {body}\n"
-    return text, FunSig(lean_name, params, ret)
+    if tr.uses_fuel and any(n == "fuel" for n, _ in params):
+        raise Untranslatable("parameter named fuel")
+    args = " ".join(f"({lname(n) + ('_len' if t == 'Len' else '')} : {_LEAN_TY.get(t, t)})" for n, t in params)
+    if tr.uses_fuel:
+        args = "(fuel : Nat)" + (" " + args if args else "")
+    text = "".join(a + "\n" for a in tr.aux) + f"def {lean_name} {args} : PyRes {ret} :=\n  {body}\n"
+    if tr.aux and len(text) > 200000:  # non-terminating `if`s duplicate their continuation (exponential in unrolled loops)
+        raise Untranslatable("translation too large")
+    return text, FunSig(lean_name, params, ret, tr.uses_fuel)
 
 
 def find_function(tree: ast.AST, qualname: str) -> ast.FunctionDef:
